@@ -155,6 +155,16 @@ CLAIMED = {
                 "recursion depth bound and everything graphviz does are not under contract; 5 real builds of a project with cycles, a diamond and limits stand in (not counted).",
         "note": "Partial; structural obligations are syntactic.",
     },
+    "C20": {
+        "engines": ["S", "A", "Bd"],
+        "technique": "contract-based verification: exceptional frame of Project._fortran_file and the per-file handler of Project.__init__ as structural obligations on the ASTs; "
+                     "termination variants of the scanning loops discharged by z3 as part of their function contracts",
+        "text": "Shown: nothing is registered in the project before the (possibly raising) parse of a file, _fortran_file does not swallow errors, the per-file handler catches any "
+                "Exception under the default settings, names the file and continues; running out of input inside a container raises; every reader error quotes the line; the "
+                "character scanners and read_docstring terminate (decreasing bounded variants). That the other files' documentation is unchanged is a differential statement outside "
+                "the family: 26 corruptions of one file run through the real pipeline stand in (not counted). Regex matching time is not analysed.",
+        "note": "Partial; containment obligations are syntactic.",
+    },
 }
 _NB = "no obligations built yet for this property in the current commit (planned in DESIGN.md section 6; technique not switched)"
-NOT_APPLICABLE = {p: _NB for p in ["C09", "C16", "C17", "C18", "C20"]}
+NOT_APPLICABLE = {p: _NB for p in ["C09", "C16", "C17", "C18"]}
